@@ -276,7 +276,12 @@ impl Request {
 
         r.next_if(|b| *b==b' ').ok_or_else(Response::BadRequest)?;
         
-        self.path.init_with_request_bytes(r.read_while(|b| !matches!(b, b' ' | b'?')))?;
+        let path = r.read_while(|b| !matches!(b, b' ' | b'?'));
+        if !path.iter().all(u8::is_ascii_graphic) {
+            /* raw control or non-ASCII bytes: `Path::str` and `Debug` assume (percent-encoded) UTF-8 */
+            return Err(Response::BadRequest())
+        }
+        self.path.init_with_request_bytes(path)?;
 
         if r.consume_oneof([" ", "?"]).ok_or_else(Response::BadRequest)? == 1 {
             self.query = QueryParams::new(r.read_while(|b| b != &b' '));
